@@ -153,13 +153,25 @@ static void observer_case(const std::vector<Op> &ops, pbt::Ctx &ctx)
 struct StampCase
 {
   std::vector<std::vector<int>> programs;  // per thread: op codes
-  auto tie() { return std::tie(programs); }
+  int phase = 0;  // the case starts with the process-global stamp counter at this value modulo 4096
+  auto tie() { return std::tie(programs, phase); }
 };
 static void stamp_case(const StampCase &c, pbt::Ctx &ctx)
 {
   size_t nt = c.programs.size();
   if (nt == 0)
     return;
+  // The stamp counter is process-global state that survives from case to case.  Absolute values are never
+  // assumed by the oracle, but to make a case reproducible in a fresh process (replay) its low bits are
+  // part of the case: advance the counter until it is congruent to `phase`.
+  {
+    const size_t want = (size_t)(((c.phase % 4096) + 4096) % 4096);
+    for (int guard = 0; guard < 3 * 4096; ++guard) {
+      TimeStamp probe;
+      if (((size_t)probe + 1) % 4096 == want)
+        break;
+    }
+  }
   std::vector<std::vector<size_t>> fresh(nt);     // values of freshly constructed / renewed stamps, in program order
   std::vector<std::string> errors(nt);
   std::atomic<int> gate{0};
@@ -242,7 +254,7 @@ static void register_properties()
   pbt::property<std::vector<Op>>("observer_history", 8000, ops, observer_case);
   auto prog = pbt::vec(pbt::range<int>(0, 59), 200);
   auto progs = gen::mapcat(pbt::range<int>(1, 8), [prog](int n) { return gen::container<std::vector<std::vector<int>>>((size_t)n, prog); });
-  pbt::property<StampCase>("timestamps", 400, gen::build<StampCase>(gen::set(&StampCase::programs, progs)), stamp_case);
+  pbt::property<StampCase>("timestamps", 400, gen::build<StampCase>(gen::set(&StampCase::programs, progs), gen::set(&StampCase::phase, pbt::range<int>(0, 4095))), stamp_case);
 }
 #ifndef C19_BIN
 #define C19_BIN "C19_observer"
